@@ -23,11 +23,14 @@ Full statement / proved / missing
   pairs and types included.  `C07_symm` is the "whichever operand receives the call" clause: `veq x y` is `x.Equals(y)`.
 * `C07_key_inj` — **proved**: equal keys ⇒ equal values (nothing distinct is ever merged), for all comparable `x y`
   outside the raw-string class (`TopSafe`).
-* `C07_key_iff` — **proved**: `key x = key y ↔ veq x y` under `TopSafe x y` and `TypeKeysAgree x y`, the two hypotheses
-  that exclude exactly the two known findings; `C07_key_iff_full` is the statement without them and
-  `C07_key_iff_fails_raw_string`, `C07_key_iff_fails_member_order` refute it (`C07_not_key_iff_full`).
-* `C07_type_key_iff` — **proved**: the key of a type decides *ordered* type equality `tyEqO` exactly, and `tyEqO ⇒ tyEq`
-  (`C07_type_ordered_imp_eq`): `TypeKeysAgree` holds whenever the equal types in `x`, `y` are equal member by member.
+* `C07_key_iff_topsafe` — **proved**: `key x = key y ↔ veq x y` for all comparable values under `TopSafe x y`, the one
+  hypothesis that excludes exactly the known finding C07-raw-string-key; `C07_key_iff_full` is the statement without it and
+  `C07_key_iff_fails_raw_string` refutes it (`C07_not_key_iff_full`).  (`C07_key_iff` is the same with the former second
+  hypothesis `TypeKeysAgree`, which now holds for all comparable values: `TypeKeysAgree_of_comparable`.)
+* `C07_type_key_iff` — **proved**: the key of a type decides `Equals` EXACTLY (`tyKey a = tyKey b ↔ tyEq a b`), Variant and Enum
+  included: their members enter the key as a set of a given size — the count, then the distinct element keys in ascending
+  order (`appendUnorderedTypeParamKeys`, the /repo fix of the former finding C07-type-member-order; the canonical-form
+  lemma is `dedupS_sortB_eq_iff`).  `C07_member_order_repaired` are the former witnesses.
 * `C07_get_sound`, `C07_get_complete`, `C07_get` — **proved**: `Hash.Get` finds ⇔ an equal key is present, and returns
   that entry's value.
 * `C07_unique_sub`, `C07_unique_cover`, `C07_unique_distinct` — **proved**: the survivors are a sub-sequence of the
@@ -105,10 +108,16 @@ theorem C07_key_iff_fails_raw_string :
     ∃ x y : Val, Comparable x ∧ Comparable y ∧ key x = key y ∧ veq x y = false :=
   ⟨.str [1, 0x75], .undef, by decide, by decide, by decide, by decide⟩
 
-/-- known finding C07-type-member-order: `Variant[Integer[1,2],String]` equals `Variant[String,Integer[1,2]]`, keys differ -/
-theorem C07_key_iff_fails_member_order :
-    ∃ x y : Val, Comparable x ∧ Comparable y ∧ veq x y = true ∧ key x ≠ key y :=
-  ⟨.typ (.var [.int 1 2, .str]), .typ (.var [.str, .int 1 2]), by decide, by decide, by decide, by decide⟩
+/-- the former witnesses of finding C07-type-member-order (Variant / Enum equality looked at the members as a set, their keys
+    listed them in order; /repo fix "the key of a Variant, Enum or Pattern type does not depend on the member order"):
+    `Variant[Integer[1,2],String]` and `Variant[String,Integer[1,2]]` have one key, `Unique` keeps one of two Enums that
+    differ in order only, and a repeated member does not matter beyond the count -/
+theorem C07_member_order_repaired :
+    key (.typ (.var [.int 1 2, .str])) = key (.typ (.var [.str, .int 1 2])) ∧
+    (unique [.typ (.enum false [[0x61], [0x62]]), .typ (.enum false [[0x62], [0x61]])]).length = 1 ∧
+    key (.typ (.var [.str, .str, .undef])) = key (.typ (.var [.str, .undef, .undef])) ∧
+    veq (.typ (.var [.str, .str, .undef])) (.typ (.var [.str, .undef, .undef])) = true ∧
+    key (.typ (.var [.str, .undef])) ≠ key (.typ (.var [.str, .undef, .undef])) := by decide
 
 theorem C07_not_key_iff_full : ¬ C07_key_iff_full := by
   intro h
@@ -121,9 +130,6 @@ theorem C07_get_fails_raw_string :
     (hashGet [(.undef, .int 1)] (.str [1, 0x75])).isSome = true ∧ veq .undef (.str [1, 0x75]) = false := by decide
 theorem C07_unique_fails_raw_string :
     (unique [.undef, .str [1, 0x75]]).length = 1 ∧ veq .undef (.str [1, 0x75]) = false := by decide
-theorem C07_unique_fails_member_order :
-    (unique [.typ (.enum false [[0x61], [0x62]]), .typ (.enum false [[0x62], [0x61]])]).length = 2 ∧
-    veq (.typ (.enum false [[0x61], [0x62]])) (.typ (.enum false [[0x62], [0x61]])) = true := by decide
 
 /-- sufficient conditions for the two hypotheses -/
 theorem TopSafe_of_not_str {x y : Val} (hx : isStr x = false) (hy : isStr y = false) : TopSafe x y := by
@@ -142,19 +148,71 @@ theorem TypeKeysAgree_of_no_types {x y : Val} (h : typesIn x = [] ∨ typesIn y 
   · rw [h] at ha; cases ha
   · rw [h] at hb; cases hb
 
-/-! ## types: the key decides ordered equality exactly -/
+/-! ## types: the key decides `Equals` exactly -/
 
 theorem C07_type_key_iff (a b : Ty) (ha : TyWF a = true) (hb : TyWF b = true) :
-    tyKey a = tyKey b ↔ tyEqO a b = true := tyKey_iff_O a b ha hb
+    tyKey a = tyKey b ↔ tyEq a b = true := tyKey_iff a b ha hb
 
-theorem C07_type_ordered_imp_eq (a b : Ty) (h : tyEqO a b = true) : tyEq a b = true := tyEq_of_O a b h
+/-- every type inside a comparable value is well-formed -/
+theorem typesIn_wf : ∀ (n : Nat) (x : Val), sizeOf x ≤ n → cmp x = true → ∀ a ∈ typesIn x, TyWF a = true := by
+  intro n
+  induction n with
+  | zero => intro x h; cases x <;> simp at h
+  | succ n ih =>
+    have ihL : ∀ vs : List Val, sizeOf vs ≤ n → cmpL vs = true → ∀ a ∈ typesInL vs, TyWF a = true := by
+      intro vs
+      induction vs with
+      | nil => intro _ _ a ha; simp [typesInL] at ha
+      | cons v vs ihv =>
+        intro hs hc a ha
+        simp only [cmpL, Bool.and_eq_true] at hc
+        simp only [List.cons.sizeOf_spec] at hs
+        simp only [typesInL, List.mem_append] at ha
+        rcases ha with ha | ha
+        · exact ih v (by omega) hc.1 a ha
+        · exact ihv (by omega) hc.2 a ha
+    have ihE : ∀ es : List (Val × Val), sizeOf es ≤ n → cmpE es = true → ∀ a ∈ typesInE es, TyWF a = true := by
+      intro es
+      induction es with
+      | nil => intro _ _ a ha; simp [typesInE] at ha
+      | cons e es ihe =>
+        obtain ⟨k, v⟩ := e
+        intro hs hc a ha
+        simp only [cmpE, Bool.and_eq_true] at hc
+        simp only [List.cons.sizeOf_spec, Prod.mk.sizeOf_spec] at hs
+        simp only [typesInE, List.mem_append] at ha
+        rcases ha with (ha | ha) | ha
+        · exact ih k (by omega) hc.1.1 a ha
+        · exact ih v (by omega) hc.1.2 a ha
+        · exact ihe (by omega) hc.2 a ha
+    intro x hs hc a ha
+    cases x with
+    | typ t => simp only [typesIn, List.mem_singleton] at ha; subst ha; simpa [cmp] using hc
+    | array vs =>
+      simp only [Val.array.sizeOf_spec] at hs
+      exact ihL vs (by omega) (by simpa [cmp] using hc) a (by simpa [typesIn] using ha)
+    | hash es =>
+      simp only [Val.hash.sizeOf_spec] at hs
+      simp only [cmp, Bool.and_eq_true] at hc
+      exact ihE es (by omega) hc.1 a (by simpa [typesIn] using ha)
+    | entry k v =>
+      simp only [Val.entry.sizeOf_spec] at hs
+      simp only [cmp, Bool.and_eq_true] at hc
+      simp only [typesIn, List.mem_append] at ha
+      rcases ha with ha | ha
+      · exact ih k (by omega) hc.1 a ha
+      · exact ih v (by omega) hc.2 a ha
+    | sensitive v => simp [cmp] at hc
+    | _ => simp [typesIn] at ha
 
-/-- `TypeKeysAgree` from the member-by-member condition -/
-theorem TypeKeysAgree_of_ordered {x y : Val}
-    (wf : ∀ a ∈ typesIn x ++ typesIn y, TyWF a = true)
-    (h : ∀ a ∈ typesIn x, ∀ b ∈ typesIn y, tyEq a b = true → tyEqO a b = true) : TypeKeysAgree x y :=
-  fun a ha b hb e =>
-    (tyKey_iff_O a b (wf a (List.mem_append_left _ ha)) (wf b (List.mem_append_right _ hb))).mpr (h a ha b hb e)
+/-- the former second hypothesis of `C07_key_iff` holds for all comparable values: equal types have equal keys -/
+theorem TypeKeysAgree_of_comparable {x y : Val} (hx : Comparable x) (hy : Comparable y) : TypeKeysAgree x y :=
+  fun a ha b hb e => tyKey_of_tyEq a b (typesIn_wf _ x (Nat.le_refl _) hx a ha) (typesIn_wf _ y (Nat.le_refl _) hy b hb) e
+
+/-- two values have the same hash key exactly when they are equal — for all comparable values outside the raw-string class -/
+theorem C07_key_iff_topsafe (x y : Val) (hx : Comparable x) (hy : Comparable y) (ts : TopSafe x y) :
+    key x = key y ↔ veq x y = true :=
+  C07_key_iff x y hx hy ts (TypeKeysAgree_of_comparable hx hy)
 
 /-! ## Hash.Get -/
 
@@ -182,6 +240,12 @@ theorem C07_get (es : List (Val × Val)) (k : Val) (hh : Comparable (.hash es)) 
     exact ⟨e, he, h1⟩
   · exact C07_get_complete es k hh hk ts tk
 
+/-- `Hash.Get` finds a key exactly when the hash contains an equal key — all comparable keys outside the raw-string class, types
+    of every member order included -/
+theorem C07_get_topsafe (es : List (Val × Val)) (k : Val) (hh : Comparable (.hash es)) (hk : Comparable k)
+    (ts : ∀ e ∈ es, TopSafe e.1 k) : (hashGet es k).isSome = true ↔ ∃ e ∈ es, veq e.1 k = true :=
+  C07_get es k hh hk ts (fun e he => TypeKeysAgree_of_comparable (cmpE_mem (cmp_hash hh).1 e he).1 hk)
+
 /-! ## Unique -/
 
 theorem C07_unique_sub (vs : List Val) : (unique vs).Sublist vs := uniqueAux_sublist [] vs
@@ -207,6 +271,11 @@ theorem C07_unique_distinct (vs : List Val) (hc : ∀ v ∈ vs, Comparable v) (t
   | true =>
     exact absurd ((kb_iff tyKey_sound a b (hc a (sub ha)) (hc b (sub hb)) (ts a (sub ha) b (sub hb))
       (tk a (sub ha) b (sub hb))).mpr h) hne
+
+/-- no two survivors of `Unique` are equal — all comparable values outside the raw-string class -/
+theorem C07_unique_distinct_topsafe (vs : List Val) (hc : ∀ v ∈ vs, Comparable v) (ts : ∀ u ∈ vs, ∀ v ∈ vs, TopSafe u v) :
+    (unique vs).Pairwise (fun a b => veq a b = false) :=
+  C07_unique_distinct vs hc ts (fun u hu v hv => TypeKeysAgree_of_comparable (hc u hu) (hc v hv))
 
 /-! ## second tie: the kind prefixes regenerated from the Go sources are the ones the model writes -/
 
@@ -280,6 +349,7 @@ example : (hashGet [(.float 0, .int 7)] (.float 9223372036854775808)).isSome = t
 example : (unique [.array [.array [.int 1], .int 2], .array [.array [.int 1, .int 2]], .array [.array [.int 1], .int 2]]).length = 2 := by
   decide
 example : TyWF (.tup [.int 1 2, .var [.str, .undef]] none) = true ∧
-    tyEqO (.tup [.int 1 2, .var [.str, .undef]] none) (.tup [.int 1 2, .var [.str, .undef]] (some (2, 2))) = true := by decide
+    tyEq (.tup [.int 1 2, .var [.str, .undef]] none) (.tup [.int 1 2, .var [.undef, .str]] (some (2, 2))) = true ∧
+    tyKey (.tup [.int 1 2, .var [.str, .undef]] none) = tyKey (.tup [.int 1 2, .var [.undef, .str]] (some (2, 2))) := by decide
 
 end Pcore.ValueEq
